@@ -8,6 +8,8 @@ import (
 	"testing"
 
 	"github.com/goghcrow/yae"
+	"github.com/goghcrow/yae/compiler"
+	"github.com/goghcrow/yae/parser/ast"
 	"github.com/goghcrow/yae/types"
 	"github.com/goghcrow/yae/val"
 	"pgregory.net/rapid"
@@ -521,7 +523,7 @@ var c13repeatOpt = gen.ProgOpt{Fuel: 4, Partial: true, Sugar: false, Maybe: true
 var c13repeat = Register(&Prop[ProgCase]{ID: "C13", Name: "repeat", Gen: genProgCase(c13repeatOpt, nil), Check: checkRepeat})
 
 func TestC13(t *testing.T) {
-	R.Rule = "histories of 3-25 operations over a pool of <= 4 expressions (results with multi-entry maps, objects, set operations, string(x), print), three engine instances (VM, closure, VM) and deliberately reused environment objects (one raw *types.Env, two raw *val.Env with different contents, host structs and maps): compile(expr, type object) on engine i; invoke(callable, value object); one-shot Eval; Debug; render an earlier result 16 times; one compile in three wraps the expression in a template calling the identity host function nest, and while nest runs inside an invocation another callable - possibly the very one being evaluated - is invoked to completion (an invocation nested in an evaluation, depth <= 2); oracle after every step: outcome = the reference evaluator on (expression, environment contents) alone, captured standard output = exactly the print lines, host values deep-equal to an identically built twin, every binding of the raw value environments reads as before, renderings never vary, an environment object used once is accepted again; plus repeated fresh evaluation of single programs (6 x 2 back ends) with identical result text and output; plus one source text (13 templates over overloaded / polymorphic built-ins) compiled 2-5 times on ONE engine against environments that give its variables different types, each step compared with a fresh engine; non-trivial = an environment object reused after another operation and a result with a multi-entry map or >= 2 results"
+	R.Rule = "histories of 3-25 operations over a pool of <= 4 expressions (results with multi-entry maps, objects, set operations, string(x), print), three engine instances (VM, closure, VM) and deliberately reused environment objects (one raw *types.Env, two raw *val.Env with different contents, host structs and maps): compile(expr, type object) on engine i; invoke(callable, value object); one-shot Eval; Debug; render an earlier result 16 times; one compile in three wraps the expression in a template calling the identity host function nest, and while nest runs inside an invocation another callable - possibly the very one being evaluated - is invoked to completion (an invocation nested in an evaluation, depth <= 2); oracle after every step: outcome = the reference evaluator on (expression, environment contents) alone, captured standard output = exactly the print lines, host values deep-equal to an identically built twin, every binding of the raw value environments reads as before, renderings never vary, an environment object used once is accepted again; plus repeated fresh evaluation of single programs (6 x 2 back ends) with identical result text and output; plus one source text (13 templates over overloaded / polymorphic built-ins) compiled 2-5 times on ONE engine against environments that give its variables different types, each step compared with a fresh engine, and the same text parsed once (Expr.Parse) with that one tree compiled at every step (Expr.CompileExpr), closures compiled earlier re-invoked after every later compilation; non-trivial = an environment object reused after another operation and a result with a multi-entry map or >= 2 results"
 	R.Assume = []string{"ref.Eval and the characterised rendering of print"}
 	reportKnown(t, "C13")
 	runRegress(t, "C13")
@@ -587,6 +589,23 @@ func checkRecompile(c *RecompileCase) *Outcome {
 	}
 	flips := 0
 	prevAccepted := -1
+	// the same text parsed ONCE (public Expr.Parse) and that one tree compiled at every step
+	// (public Expr.CompileExpr): a compilation reads its input tree, it does not keep notes in it
+	astEngine := yae.NewExpr()
+	if c.Closure {
+		astEngine.UseClosureCompiler()
+	}
+	var parsed ast.Expr
+	if p := run.Guard(func() { parsed = astEngine.Parse(src) }); p != nil {
+		return bad("harness: template %q does not parse: %s", src, p.Text)
+	}
+	type kept struct {
+		cl   compiler.Closure
+		vals map[string]*m.Val
+		want string
+		step int
+	}
+	var earlier []kept
 	for step, ti := range c.Types {
 		ty := recompileTypes[ti%len(recompileTypes)]
 		env := map[string]*m.Type{"x": ty, "y": ty}
@@ -620,6 +639,31 @@ func checkRecompile(c *RecompileCase) *Outcome {
 		}
 		want, _ := runOn(fresh)
 		got, gotErr := runOn(shared)
+		runTree := func(cl compiler.Closure, vs map[string]*m.Val) string {
+			var v *val.Val
+			var out string
+			if p := run.Guard(func() { out = run.CaptureStdout(func() { v = cl(en.ValEnv(vs)) }) }); p != nil {
+				return "error"
+			}
+			return "value " + v.String() + " | stdout " + out
+		}
+		var cl compiler.Closure
+		gotTree := ""
+		if p := run.Guard(func() { cl = astEngine.CompileExpr(parsed, run.TypeEnv(env)) }); p != nil {
+			gotTree = "error"
+		} else {
+			gotTree = runTree(cl, vals)
+			earlier = append(earlier, kept{cl, vals, gotTree, step})
+		}
+		if gotTree != want {
+			return bad("step %d: compiling the parsed tree of %q (parsed once, compiled before against other types) against x,y : %s gives [%s]; a fresh engine on the text gives [%s]\n type sequence: %v", step, src, ty, gotTree, want, c.Types)
+		}
+		// what was compiled earlier keeps behaving as it did
+		for _, k := range earlier {
+			if now := runTree(k.cl, k.vals); now != k.want {
+				return bad("after step %d the closure compiled at step %d from the same parsed tree of %q gives [%s], it gave [%s]\n type sequence: %v", step, k.step, src, now, k.want, c.Types)
+			}
+		}
 		if got != want {
 			return bad("step %d: compiling %q against x,y : %s on an engine that compiled the same text before gives [%s %s]; a fresh engine gives [%s]\n type sequence: %v", step, src, ty, got, gotErr, want, c.Types)
 		}
